@@ -16,6 +16,24 @@ UNIT = dict(
 #[verifier::external_body] pub struct Node { }
 #[verifier::external_body] pub fn __abs_f64() -> f64 { unimplemented!() }
 #[verifier::external_body] pub fn __abs_stop() -> bool { unimplemented!() }
+// the two infoset tables of a pass, as opaque role tokens: the updating ("active") player's and the
+// sampled ("external") player's; thread_threshold follows the SAMPLED player's draws, the traversal
+// enumerates the active player's actions and samples the external player's
+#[derive(Clone, Copy, PartialEq, Eq, Structural)]
+pub enum __Role { Active, External }
+#[verifier::external_body]
+pub fn __abs_thread_threshold_ext(sampled: __Role, queue: &mut Vec<Item>, work: &mut Vec<Item>)
+    requires sampled == __Role::External, old(queue)@.len() == 0, old(work)@.len() == 0,
+{ unimplemented!() }
+// only the UPDATING player's infosets are advanced (regret matching / discounting) after its pass
+#[verifier::external_body]
+pub fn __abs_advance(who: __Role) -> (r: f64)
+    requires who == __Role::Active,
+{ unimplemented!() }
+#[verifier::external_body]
+pub fn __abs_roles(active: __Role, external: __Role)
+    requires active == __Role::Active, external == __Role::External,
+{ unimplemented!() }
 // ghost flag: the cached chance draws of this pass have been reset ("a fresh draw is made for the
 // next pass"); set only by the abstracted `chance_infosets.iter_mut().for_each(.. advance())`
 pub struct Draws { pub rearmed: Ghost<bool> }
@@ -40,14 +58,14 @@ impl Tgt { #[verifier::external_body] pub fn get(&self) -> usize { unimplemented
              obligation="C07.V.single_player_iter.workspace_fresh",
              sig_subst=[(r"work: &mut Workspace<'a>", "work: &mut Workspace", "TYPE-SUBST lifetime dropped")],
              table=[
-                 (r"^let \[active_player_infosets, external_player_infosets\] = player_infosets;$", ("abstract", "")),
-                 (r"^thread_threshold::<FIRST>\( root, chance_infosets, external_player_infosets, target, &mut work\.queue, &mut work\.work, \);$",
-                  ("abstract", "__abs_thread_threshold(&mut work.queue, &mut work.work); // @ob C07.V.workspace_fresh.frontier")),
-                 (r"^work\.payoffs \.par_extend\(work\.queue\.par_drain\(\.\.\)\.map\(\|node\| \{ let payoff = recurse_regret::<FIRST>\( node, chance_infosets, active_player_infosets, external_player_infosets, &\(\), \); \(ByAddress\(node\), payoff\) \}\)\);$",
-                  ("abstract", "__abs_par_drain_into(&mut work.payoffs, &mut work.queue); // @ob C07.V.workspace_fresh.payoff_cache")),
-                 (r"^recurse_regret::<FIRST>\( root, chance_infosets, active_player_infosets, external_player_infosets, &work\.payoffs, \);$", ("abstract", "")),
+                 (r"^let \[(\w+), (\w+)\] = player_infosets;$", ("abstract", "let \\1 = __Role::Active; let \\2 = __Role::External;")),
+                 (r"^thread_threshold::<FIRST>\( root, chance_infosets, (\w+), target, &mut work\.queue, &mut work\.work, \);$",
+                  ("abstract", "__abs_thread_threshold_ext(\\1, &mut work.queue, &mut work.work); // @ob C07.V.single_player_iter.frontier_follows_sampled_player")),
+                 (r"^work\.payoffs \.par_extend\(work\.queue\.par_drain\(\.\.\)\.map\(\|node\| \{ let payoff = recurse_regret::<FIRST>\( node, chance_infosets, (\w+), (\w+), &\(\), \); \(ByAddress\(node\), payoff\) \}\)\);$",
+                  ("abstract", "__abs_roles(\\1, \\2); __abs_par_drain_into(&mut work.payoffs, &mut work.queue); // @ob C07.V.workspace_fresh.payoff_cache")),
+                 (r"^recurse_regret::<FIRST>\( root, chance_infosets, (\w+), (\w+), &work\.payoffs, \);$", ("abstract", "__abs_roles(\\1, \\2); // @ob C07.V.single_player_iter.traversal_roles")),
                  (r"^chance_infosets \.iter_mut\(\) \.for_each\(\|info\| info\.get_mut\(\)\.unwrap\(\)\.advance\(\)\);$", ("abstract", "__abs_rearm_chance_draws(&mut __draws);"), "optional"),
-                 (r"^active_player_infosets \.par_iter_mut\(\) \.map\(\|info\| info\.get_mut\(\)\.unwrap\(\)\.advance::<FIRST>\(it, params\)\) \.sum\(\)$", ("abstract", "{ proof { assert(__draws.rearmed@); } // @ob C10.V.single_player_iter.fresh_draw_next_pass\n __abs_f64() }")),
+                 (r"^(\w+) \.par_iter_mut\(\) \.map\(\|info\| info\.get_mut\(\)\.unwrap\(\)\.advance::<FIRST>\(it, params\)\) \.sum\(\)$", ("abstract", "{ proof { assert(__draws.rearmed@); } // @ob C10.V.single_player_iter.fresh_draw_next_pass\n __abs_advance(\\1) }")),
              ],
              entry="let mut __draws = __draws_of_this_pass();",
              contract="""requires
